@@ -18,7 +18,7 @@ from pathlib import Path
 
 ROOT = Path(__file__).resolve().parent.parent
 SPEC = ROOT / "spec"
-OUT = ROOT / "out"
+from harness.core import OUT  # noqa: E402  (scratch runs keep their output apart)
 JAR = "/opt/veriftools/tla/tla2tools.jar"
 DEPS = "/opt/veriftools/tla/CommunityModules-deps.jar"
 
